@@ -160,6 +160,32 @@ def gen_cases(ctx, table):
         swapped[i], swapped[j] = ops[j], ops[i]   # the VALUES move; labels travel with the values
         cases.append({"family": "swap", "ops": swapped, "harness_ops": ops, "mode": "chain",
                       "src": f"swap o{i + 1}, o{j + 1}; " + chain_src(n)})
+    # operator expressions are evaluated left to right, each after the operand on its left and before the operand
+    # on its right: an operand that reassigns an operator variable is seen by the operators to its right only
+    for _ in range(ctx.n(400, 5000)):
+        n = rng.randint(1, 5)
+        ops = rand_ops(n)
+        spare = [op_desc(f"s{k + 1}", rng.choice([1, 2, 3]), rng.choice("LR"), rng.choice((0, 0, 1, 2))) for k in range(2)]
+        env_ops = ops + spare                      # variables o1..on, o{n+1}, o{n+2}
+        cur = {k + 1: env_ops[k] for k in range(n + 2)}
+        assigns = {}
+        for _a in range(rng.randint(1, 3)):
+            k = rng.randint(0, n)                  # the operand that performs the assignment
+            tgt = rng.randint(1, n)
+            src_v = rng.randint(1, n + 2)
+            assigns.setdefault(k, []).append((tgt, src_v))
+        eff = []
+        for pos in range(1, n + 1):
+            for tgt, src_v in assigns.get(pos - 1, []):
+                cur[tgt] = cur[src_v]
+            eff.append(cur[pos])
+        def operand(k):
+            pre = "".join(f"o{t} = o{sv}; " for t, sv in assigns.get(k, []))
+            return f"({pre}ev({k}))" if pre else f"ev({k})"
+        src = " ".join([operand(0)] + [f"o{i} {operand(i)}" for i in range(1, n + 1)])
+        # labels travel with the VALUES: the model sees the effective operator values in chain order
+        cases.append({"family": "opassign-in-operand", "ops": eff, "harness_ops": env_ops,
+                      "mode": "chain" if n > 1 else "fast", "src": src})
     # chains of the real builtins (wrapped): real precedence, associativity and try_chain
     names = [x for x in REAL_POOL if x in by_name]
     chainable = sorted({a for a, b in table["chains"]} | {b for a, b in table["chains"]})
